@@ -16,7 +16,7 @@ import numpy as np
 
 from harness.core import pmap, MachineryError
 
-INV = ["TypeOK", "CbNumbers", "SliceOK", "Cover", "AtDone", "ModelIsSlices"]
+INV = ["TypeOK", "CbNumbers", "SliceOK", "Cover", "AtDone", "ModelIsSlices", "IndMapped"]
 
 
 def cfg(maxn, maxbs, maxep, maxit, maxstop, maxk, emit, trace=False):
@@ -266,6 +266,8 @@ def run(ck):
     ck.extra.update({"behaviours_replayed": len(beh), "behaviours_stopped_by_callback": nstop, "behaviours_stopped_by_max_iter": nmax, "traces": len(traces), "predict_cases": len(pr)})
     if nstop == 0 or nmax == 0:
         raise MachineryError("vacuity: no behaviour stopped by a callback / by max_iter")
+    from harness import extras2
+    extras2.schedule_unbounded(ck)     # Apalache: the schedule invariant is inductive for ALL n / batch_size / epochs / max_iter (AdvScheduleInd.tla)
     from harness import extras
     extras.encode(ck)        # specification growth (refinement tier only): FloatTransformer encoding rules
     ck.assumptions += ["PyTorch backend; regressor with continuous targets for the schedule (every slice has the same target type)", "model equality is exact (torch.equal): both runs perform the same arithmetic"]
